@@ -20,3 +20,7 @@ PROPS = {
 PROPS["C02"] = dict(pkg="chain", level="exploration", stages=[
     rapid("rapid", "TestC02", dict(shards=16, checks=120), dict(shards=16, checks=4000, timeout=7000)),
 ])
+
+PROPS["C03"] = dict(pkg="chain", level="fault_enumeration", stages=[
+    rapid("rapid", "TestC03", dict(shards=16, checks=50), dict(shards=16, checks=1200, timeout=7000)),
+])
